@@ -281,6 +281,13 @@ func init() {
 							c05bare = true
 							c05verdict(w, c, id+"/bare", 3, es, kinds, sc)
 							c05bare = false
+							if kn := c05kinds[k]; kn == "field" || kn == "call" || kn == "decorator-svc" || kn == "decorator-tagged" {
+								// the same relation when the services are created from a value / a type only (they take no
+								// constructor arguments, but fields, calls, tags and decorators inject all the same)
+								c05creation = 1
+								c05verdict(w, c, id+"/value-and-type-services", 3, es, kinds, sc)
+								c05creation = 0
+							}
 							if gi == 7 && k == 4 && sc[0] == 1 && sc[1] == 0 && sc[2] == 2 {
 								c.Sample(map[string]any{"case": id, "yaml": c05cfg(3, es, kinds, sc).YAML()})
 							}
